@@ -45,6 +45,53 @@ def parseEsRes (res : String) : Option (Nat × Bool × Int × Int) :=
     | _ => none
   | _ => none
 
+def hexDigit5 (c : Char) : Option Nat :=
+  if '0' ≤ c && c ≤ '9' then some (c.toNat - '0'.toNat)
+  else if 'a' ≤ c && c ≤ 'f' then some (c.toNat - 'a'.toNat + 10)
+  else none
+
+/-- `0x1f`, `-0x1f` or decimal -/
+def parseIntX5 (s : String) : Option Int :=
+  let (neg, cs) := match s.toList with
+    | '-' :: r => (true, r)
+    | r => (false, r)
+  match cs with
+  | '0' :: 'x' :: ds =>
+    if ds.isEmpty then none else
+    (ds.foldlM (fun (acc : Nat) c => (hexDigit5 c).map (fun d => acc * 16 + d)) 0).map
+      (fun (n : Nat) => if neg then -(n : Int) else (n : Int))
+  | _ => s.toInt?
+
+def showHex5 (v : Int) : String :=
+  if v < 0 then "-0x" ++ String.ofList (Nat.toDigits 16 v.natAbs) else "0x" ++ String.ofList (Nat.toDigits 16 v.natAbs)
+
+def showENumX (x : ENum) : String := s!"el({x.digits},{x.narrowest.toString}):{showHex5 x.value}"
+
+/-- results that need multi-word storage: `wide_integer<digits, Narrowest>` is a two's-complement integer wide
+enough for the policy's digits (property C10), so the operator is exact; the type follows the same rule as for
+built-in storage -/
+def xBin (op : BinOp) (x y : ENum) : Res ENum :=
+  match binOp op x y with
+  | .ill _ =>
+    (match policy op x.digits x.narrowest.signed y.digits y.narrowest.signed with
+     | some (d, sg) => .ok ⟨d, ⟨max x.narrowest.bits y.narrowest.bits, sg⟩, exactBin op x.value y.value⟩
+     | none => .ill "no policy")
+  | r => r
+
+def xNeg (x : ENum) : Res ENum :=
+  match neg x with
+  | .ill _ => .ok ⟨x.digits, ⟨x.narrowest.bits, true⟩, -x.value⟩
+  | r => r
+
+/-- parse `el(D,N):hex` -/
+def parseElResX (res : String) : Option (Nat × Bool × Int) :=
+  match res.splitOn ":" with
+  | [ty, v] =>
+    match parseTy ty with
+    | some (.el d (.int n)) => (parseIntX5 v).map (fun v => (d, n.signed, v))
+    | _ => none
+  | _ => none
+
 /-- known-defect class of an input (none after the repairs) -/
 def c05Class (op : BinOp) (x y : ENum) : String :=
   match op with
@@ -105,6 +152,36 @@ def checkC05 (toks : List String) (res : String) : Option Verdict :=
       | none => some false
     let cls := if l < 0 && l / 2^k < -(2^(dl - k) - 1 : Int) then "C05.shr_negative_below_declared_range" else ""
     some { model := showRes showENum (shrConst x k), spec := spec, cls := cls, branch := "shrc", nontrivial := decide x.InRange }
+  | ["xbin", op, dl, nl, dr, nr, l, r] => do
+    let op ← parseBinOp op; let dl ← dl.toNat?; let nl ← parseIntTy nl; let dr ← dr.toNat?; let nr ← parseIntTy nr
+    let l ← parseIntX5 l; let r ← parseIntX5 r
+    let x : ENum := ⟨dl, nl, l⟩; let y : ENum := ⟨dr, nr, r⟩
+    let guard := decide x.InRange && decide y.InRange
+    let spec : Option Bool := if !guard then none else
+      match parseElResX res with
+      | some (d, sg, v) => some (v == exactBin op l r && withinDigits d sg v)
+      | none => some false
+    some { model := showRes showENumX (xBin op x y), spec := spec, branch := "xbin/" ++ toks[1]!, nontrivial := guard }
+  | ["xcmp", op, dl, nl, dr, nr, l, r] => do
+    let op ← parseCmpOp op; let dl ← dl.toNat?; let nl ← parseIntTy nl; let dr ← dr.toNat?; let nr ← parseIntTy nr
+    let l ← parseIntX5 l; let r ← parseIntX5 r
+    let x : ENum := ⟨dl, nl, l⟩; let y : ENum := ⟨dr, nr, r⟩
+    let want : Bool := match op with
+      | .lt => decide (l < r) | .le => decide (l ≤ r) | .gt => decide (l > r) | .ge => decide (l ≥ r)
+      | .eq => decide (l = r) | .ne => decide (l ≠ r)
+    let guard := decide x.InRange && decide y.InRange
+    -- (the comparison of multi-word operands is by value: model = oracle where the built-in model does not apply)
+    let m := match cmp op x y with | .ill _ => .ok want | o => o
+    some { model := showRes showBool m, spec := if guard then some (showBool want == res) else none,
+           branch := "xcmp/" ++ toks[1]!, nontrivial := guard }
+  | ["xneg", dl, nl, l] => do
+    let dl ← dl.toNat?; let nl ← parseIntTy nl; let l ← parseIntX5 l
+    let x : ENum := ⟨dl, nl, l⟩
+    let spec : Option Bool := if !decide x.InRange then none else
+      match parseElResX res with
+      | some (d, sg, v) => some (v == -l && withinDigits d sg v)
+      | none => some false
+    some { model := showRes showENumX (xNeg x), spec := spec, branch := "xneg", nontrivial := decide x.InRange }
   | ["scaledn", dl, nl, k, l] => do
     -- `_impl::scale<-k>` of an elastic_integer (elastic_integer/scale.h): the quotient by 2^k, truncated
     let dl ← dl.toNat?; let nl ← parseIntTy nl; let k ← k.toNat?; let l ← l.toInt?
